@@ -236,7 +236,7 @@ func ReplayList(c *vk.Ctx, path string) {
 	}
 	rm := ref.NewModel(model, ref.TemplateCondEval)
 	typ, rel, user := w.Request.Object, w.Request.Relation, w.Request.User
-	engines := []string{"classic", "optimized", "pipeline"}
+	engines := []string{"classic", "optimized", "pipeline", "classic-limit1", "pipeline-limit1", "optimized-limit1"}
 	answers := func(ts []*openfgav1.TupleKey) (want []string, got map[string]string) {
 		got = map[string]string{}
 		rc := ref.NewCase(rm, append(append([]*openfgav1.TupleKey{}, ts...), contextual...), rctx, user)
@@ -253,11 +253,21 @@ func ReplayList(c *vk.Ctx, path string) {
 			return
 		}
 		for _, e := range engines {
-			s, err := drive.NewShared(drive.Cfg{LOEngine: e}, base)
+			cfg := drive.Cfg{LOEngine: strings.TrimSuffix(e, "-limit1")}
+			if strings.HasSuffix(e, "-limit1") {
+				cfg.LOMax = 1
+			}
+			s, err := drive.NewShared(cfg, base)
 			if err != nil {
 				continue
 			}
-			lo := s.ListObjects(drive.Req{Store: p.Store, Object: typ, Relation: rel, User: user, Ctx: rctx, Contextual: contextual})
+			var lo drive.ListOutcome
+			if !drive.Watch(8*time.Second, func() {
+				lo = s.ListObjects(drive.Req{Store: p.Store, Object: typ, Relation: rel, User: user, Ctx: rctx, Contextual: contextual, Deadline: 3 * time.Second})
+			}) {
+				got[e] = "HANG"
+				continue // the server is abandoned (cannot be closed while a request hangs)
+			}
 			if lo.Err != nil {
 				got[e] = "error: " + drive.ErrDetail(lo.Err)
 			} else {
@@ -272,6 +282,12 @@ func ReplayList(c *vk.Ctx, path string) {
 	if eng := os.Getenv("VERIF_MINIMIZE"); eng != "" {
 		bad := func(ts []*openfgav1.TupleKey) bool {
 			want, got := answers(ts)
+			if os.Getenv("VERIF_MINIMIZE_HANG") != "" {
+				return got[eng] == "HANG"
+			}
+			if strings.HasSuffix(eng, "-limit1") {
+				return len(want) >= 1 && got[eng] == ""
+			}
 			return got[eng] != strings.Join(want, ",")
 		}
 		if bad(stored) {
@@ -291,8 +307,14 @@ func ReplayList(c *vk.Ctx, path string) {
 	want, got := answers(stored)
 	fmt.Printf("REPLAY %s\n%s\nstored: %v\ncontextual: %v\nListObjects(%s, %s, %s) ctx=%s\nreference: %v\n", path, rm.DSL(), gen.TupleStrings(stored), gen.TupleStrings(contextual), typ, rel, user, gen.CtxString(rctx), want)
 	for _, e := range engines {
-		fmt.Printf("  engine %-10s -> [%s]\n", e, got[e])
+		fmt.Printf("  engine %-16s -> [%s]\n", e, got[e])
 		c.Case("replay|"+e, true)
+		if strings.HasSuffix(e, "-limit1") {
+			if len(want) >= 1 && got[e] == "" {
+				c.Violation("", "replay|"+e, fmt.Sprintf("replayed: engine %s returned nothing, reference %v", e, want), map[string]any{"file": path})
+			}
+			continue
+		}
 		if got[e] != strings.Join(want, ",") {
 			c.Violation("", "replay|"+e, fmt.Sprintf("replayed: engine %s returned [%s], reference %v", e, got[e], want), map[string]any{"file": path})
 		}
